@@ -315,6 +315,15 @@ func genCluster(r *rand.Rand, p profile, u Universe) Cluster {
 			}
 			if d != i && u[d].Referable() {
 				o.Deps = []int{d}
+				// a second reference (seed C05g): a live object whose annotation names one object of the run and one
+				// outside it is graph-invalid, yet its edge to the first one must still hold that one back
+				if d2 := r.Intn(len(u)); chance(r, 0.35) && d2 != i && d2 != d && u[d2].Referable() {
+					if chance(r, 0.5) {
+						o.Deps = []int{d, d2}
+					} else {
+						o.Deps = []int{d2, d}
+					}
+				}
 			}
 		}
 		if avoidRetention && (o.Keep || o.BadDep || len(o.Deps) > 0) {
@@ -1720,6 +1729,22 @@ func (c *collector) corpus() {
 			CObj{ID: 1, UID: 1, Owner: OOurs, Ver: 1}.Applied(), CObj{ID: 2, UID: 2, Owner: OOurs, Ver: 1, Deps: []int{1}}.Applied()}},
 			[]fixedRun{{local: []LObj{{ID: 0, Ver: 1}}, opts: Opts{Prune: true, Policy: PMustMatch}, faults: []FAddr{{Kind: "FGet", I: 1, N: 0, Err: k}}}})
 	}
+	// 12b. (seed C02g) the ownership read of the apply filter (first GET of the object) is rejected, with every error
+	// kind, while the object exists under another owner / unowned: the run must stop before any apply request, whatever
+	// the error (a 403 is not "absent"); client-side and server-side apply, both non-adopting policies
+	for k := range faultErrs {
+		for _, ow := range []Owner{OOther, ONone, OOurs} {
+			foreignCl := Cluster{NextUID: 100, Objs: []CObj{CObj{ID: 0, UID: 1, Owner: ow, Ver: 1}.Applied()}}
+			for _, ssa := range []bool{false, true} {
+				pol := PMustMatch
+				if ow == OOther && ssa {
+					pol = PAdoptIfNoInventory
+				}
+				c.fixedHistory(u, foreignCl, []fixedRun{{local: []LObj{{ID: 0, Ver: 2}}, opts: Opts{Prune: true, Policy: pol, SSA: ssa},
+					faults: []FAddr{{Kind: "FGet", I: 0, N: 0, Err: k}}}})
+			}
+		}
+	}
 	// 13. dependency references spelled as apply-time-mutation substitutions: b (mutation) -> a;
 	// c is a bystander whose depends-on reference is external (d is not applied)
 	ma, mb, mc, md := Entry("ConfigMap", invNS, "cm-a"), Entry("ConfigMap", invNS, "cm-b"), Entry("Secret", invNS, "sec-a"), Entry("ClusterRole", "", "cr-a")
@@ -1735,6 +1760,16 @@ func (c *collector) corpus() {
 	c.fixedHistory(um, Cluster{NextUID: 100}, []fixedRun{{local: withBystander, opts: skipM}, {local: withBystander, opts: skipM}})
 	c.fixedHistory(um, Cluster{NextUID: 100}, []fixedRun{{local: withBystander, opts: skipM, stall: []int{1}}})
 	c.fixedHistory(um, Cluster{NextUID: 100}, []fixedRun{{local: withBystander, opts: Opts{Prune: true, Policy: PMustMatch, SSA: true, ValPol: VSkipInvalid}}})
+	// 13b. (seed C05g) a LIVE mutation-spelled object whose annotation names one object of the run (cm-a) and one outside it
+	// (cr-a, neither live nor tracked): cm-b is graph-invalid and skipped, but its edge to cm-a stands, so cm-a is not
+	// deleted either and both stay in the inventory; destroy and apply + prune, both reference orders, and exit-early
+	for _, deps := range [][]int{{1, 0}, {0, 1}} {
+		liveMut := Cluster{NextUID: 100, HasInv: true, Inv: []int{1, 2}, Objs: []CObj{
+			CObj{ID: 1, UID: 1, Owner: OOurs, Ver: 1}.Applied(), CObj{ID: 2, UID: 2, Owner: OOurs, Ver: 1, Deps: deps}.Applied()}}
+		c.fixedHistory(um, liveMut, []fixedRun{{opts: Opts{Destroy: true, Prune: true, Policy: PMustMatch, ValPol: VSkipInvalid}}})
+		c.fixedHistory(um, liveMut, []fixedRun{{local: []LObj{{ID: 3, Ver: 1}}, opts: Opts{Prune: true, Policy: PMustMatch, ValPol: VSkipInvalid}}})
+		c.fixedHistory(um, liveMut, []fixedRun{{opts: Opts{Destroy: true, Prune: true, Policy: PMustMatch}}})
+	}
 	// 14. late status deliveries while a wait group completes and the consumer is slow:
 	// timeout ending (two objects pending), all-reconciled ending, cancel ending; apply and destroy
 	lateAll := []LateSpec{{Wait: 0, N: 2, Off: 0}, {Wait: 1, N: 2, Off: 1}}
